@@ -6,12 +6,12 @@ from .c03 import sigma, enc_value, dec_value, chunks
 
 INFO = {
     "rule": "every strict-typed term of tiers T1..T3 (+T5 thorough) x every (build input, expected result) pair of its value domain "
-            "(full integer/float/string alphabets for primitives, bounded products for composites); every T4 shape (context "
+            "(full integer/float/string alphabets for primitives, bounded products for composites; thorough: also every value the reference reads from an accepted string over S6^<=5); every T4 shape (context "
             "dependencies: length/count/condition/switch refs, Rebuild(len_), Default, Computed, Const, StopIf, _ / _root / _params) x "
             "keyword contexts x every value obtained from an accepted byte string over S6^<=4, also with each derived member "
             "omitted. Oracle: parse(build(v)) matches the expected value structurally (derived members filled in), the whole "
             "encoding is consumed. non-trivial = a value whose round trip was executed and compared; distinct = distinct (term, kw, value)",
-    "bounds": {"quick": {"tiers": "T1,T2,T3,T4", "L_T4": 4}, "thorough": {"tiers": "T1..T5", "L_T4": 5}},
+    "bounds": {"quick": {"tiers": "T1,T2,T3,T4", "L_T4": 4, "L_ctxfree": 0}, "thorough": {"tiers": "T1..T5", "L_T4": 6, "L_ctxfree": 5}},
     "trusted_base": ["value domains and expected results in mc/gen.py:values()", "mc/ref.py is used ONLY as a domain filter "
                      "(a value whose reference round trip is not the identity is a representational gap of the composition and is "
                      "skipped, counted as 'gap'); the verdict compares the implementation with the expected value"],
@@ -123,6 +123,21 @@ def run_term(t, tn, tier, r):
         except Exception as e:
             r.extra["values-unavailable"] += 1
             vals = []
+        if tier == "thorough":
+            # plus every value the reference reads from an accepted byte string (a far larger, systematically derived domain)
+            try:
+                vals = list(G.values(t, 24)) + [v for v in vals if v not in G.values(t, 24)]
+            except Exception:
+                pass
+            got = {}
+            for x in sigma(INFO["bounds"][tier]["L_ctxfree"]):
+                try:
+                    v, end = R.parse(t, x)
+                except Exception:
+                    continue
+                if end == len(x):
+                    got.setdefault(repr(v), v)
+            vals = list(vals) + [(T.denorm(v), v) for v in got.values()]
         seen = set()
         for vin, vexp in vals:
             key = repr((vin, vexp))
